@@ -34,6 +34,14 @@ fn live_values_text(vs: &VStore, root: &str) -> Vec<((u64, u32), bool, Vec<u16>)
     out
 }
 
+/// a position given in UTF-16 units (what ids count) as an offset of the document's kind
+fn to_doc(s: &str, u: u32, bytes: bool) -> u32 {
+    if !bytes { return u; }
+    let (mut a16, mut ab) = (0u32, 0u32);
+    for ch in s.chars() { if a16 >= u { break; } a16 += ch.len_utf16() as u32; ab += ch.len_utf8() as u32; }
+    ab
+}
+
 #[derive(Clone)]
 struct Sticky { bytes: Vec<u8>, v2: bool, json: Option<String>, root: &'static str, anchor: Option<(u64, u32)>, after: bool, created_at: u64, index: u32, anchor_val: Option<String> }
 #[derive(Clone)]
@@ -68,7 +76,9 @@ fn run_case(seed: u64, index: u64, rep: &mut Report, want: &[&str], md: &mut Mod
     // re-created), GC on or off, and no quotations (their expected content is defined on histories without re-created elements)
     let undo_case = index % 2 == 1;
     let gc = undo_case && r.chance(1, 2);
-    let reps: Vec<Replica> = (0..nrep).map(|i| Replica::new([1u64, 2, 3][i], DocCfg { gc, ..DocCfg::default() })).collect();
+    // text offsets in bytes (the default of a Doc) in half of the cases without embeds
+    let bytes = !undo_case && r.chance(1, 2);
+    let reps: Vec<Replica> = (0..nrep).map(|i| Replica::new([1u64, 2, 3][i], DocCfg { gc, bytes_offsets: bytes, ..DocCfg::default() })).collect();
     let mut mgr: Option<yrs::undo::UndoManager<()>> = if undo_case {
         let mut m = yrs::undo::UndoManager::with_options(yrs::undo::Options { capture_timeout_millis: 0, ..yrs::undo::Options::default() });
         m.expand_scope(&reps[0].doc, &reps[0].doc.get_or_insert_text(ROOT_TEXT)); m.expand_scope(&reps[0].doc, &reps[0].doc.get_or_insert_array(ROOT_ARRAY));
@@ -103,7 +113,7 @@ fn run_case(seed: u64, index: u64, rep: &mut Report, want: &[&str], md: &mut Mod
             rep.count("undo_redo_calls");
         } else if choice < 4 || (cand.is_empty() && choice < 7) {
             let mut sc = vec![];
-            let (u1, _) = local_txn(&reps[i], &mut r, &ecfg, false, 2, &mut sc, &mut tag);
+            let (u1, _) = local_txn(&reps[i], &mut r, &ecfg, bytes, 2, &mut sc, &mut tag);
             script.push(format!("r{} txn {{{}}}", i, sc.join("; ")));
             if let Some(a) = u1.into_iter().next() { msgs.push((i, a)); delivered[i].insert(msgs.len() - 1); }
         } else if choice < 7 {
@@ -125,11 +135,12 @@ fn run_case(seed: u64, index: u64, rep: &mut Report, want: &[&str], md: &mut Mod
             if root == ROOT_TEXT { let s: Vec<u16> = tref.get_string(&txn).encode_utf16().collect(); if idx > 0 && (idx as usize) < s.len() && (0xD800..0xDC00).contains(&s[idx as usize - 1]) { continue; } }
             let after = r.chance(1, 2);
             let assoc = if after { Assoc::After } else { Assoc::Before };
-            let st = if root == ROOT_TEXT { tref.sticky_index(&txn, idx, assoc) } else { aref.sticky_index(&txn, idx, assoc) };
+            let doc_idx = if root == ROOT_TEXT { to_doc(&tref.get_string(&txn), idx, bytes) } else { idx };
+            let st = if root == ROOT_TEXT { tref.sticky_index(&txn, doc_idx, assoc) } else { aref.sticky_index(&txn, idx, assoc) };
             let st = match st { Some(s) => s, None => { if !(after && idx == len) { fails.push(json!({"property": "C14", "class": "sticky-index-not-created", "index": idx, "len": len, "after": after})); } continue; } };
             let anchor = if after { live.get(idx as usize).map(|u| (u.0, u.1)) } else if idx == 0 { None } else { live.get(idx as usize - 1).map(|u| (u.0, u.1)) };
             // resolves to where it was created
-            match st.get_offset(&txn) { Some(o) if o.index == idx => {}, other => fails.push(json!({"property": "C14", "class": "sticky-does-not-resolve-to-creation-index", "index": idx, "got": other.map(|o| o.index), "after": after, "root": root})) }
+            match st.get_offset(&txn) { Some(o) if o.index == doc_idx => {}, other => fails.push(json!({"property": "C14", "class": "sticky-does-not-resolve-to-creation-index", "index": idx, "got": other.map(|o| o.index), "after": after, "root": root})) }
             // the anchor it chose is the neighbouring element
             let got_anchor = st.id().map(|id| (id.client.get(), id.clock));
             if got_anchor != anchor { fails.push(json!({"property": "C14", "class": "sticky-anchor-is-not-the-neighbour", "expected": format!("{:?}", anchor), "got": format!("{:?}", got_anchor), "index": idx, "after": after, "root": root})); }
@@ -142,6 +153,19 @@ fn run_case(seed: u64, index: u64, rep: &mut Report, want: &[&str], md: &mut Mod
             script.push(format!("r{} sticky#{} {}@{} {}", i, stickies.len() - 1, root, idx, if after { "After" } else { "Before" }));
             rep.count("stickies_created");
         } else {
+            // sometimes an existing quotation is deleted instead (the others, which may share elements with it, live on)
+            if quotes.len() >= 2 && r.chance(1, 4) {
+                let mref = reps[i].doc.get_or_insert_map(ROOT_MAP);
+                let present: Vec<String> = { let txn = reps[i].doc.transact(); quotes.iter().filter(|q| mref.get(&txn, &q.key).is_some()).map(|q| q.key.clone()).collect() };
+                if let Some(k) = present.first().cloned() {
+                    reps[i].drain1();
+                    { let mut txn = reps[i].doc.transact_mut(); mref.remove(&mut txn, &k); }
+                    if let Some(u) = reps[i].drain1().into_iter().next() { msgs.push((i, u)); delivered[i].insert(msgs.len() - 1); }
+                    reps[i].drain2();
+                    script.push(format!("r{} deletes quotation {}", i, k));
+                    rep.count("quotes_deleted_during_the_history");
+                }
+            } else {
             // quote a range of the root array / text and store it in the root map (a replicated operation)
             let root: &'static str = if r.chance(2, 3) { ROOT_ARRAY } else { ROOT_TEXT };
             let vs = store_dump(&reps[i].doc);
@@ -164,7 +188,9 @@ fn run_case(seed: u64, index: u64, rep: &mut Report, want: &[&str], md: &mut Mod
                 if root == ROOT_ARRAY {
                     match aref.quote(&txn, (start, end)) { Ok(q) => { let w = m.insert(&mut txn, key.as_str(), q); if quotes.is_empty() { let f = fired.clone(); subs.push(w.observe(move |_, _| { f.fetch_add(1, Ordering::SeqCst); })); } true } Err(e) => { fails.push(json!({"property": "C20", "class": "quote-error", "error": e.to_string()})); false } }
                 } else {
-                    match tref.quote(&txn, (start, end)) { Ok(q) => { m.insert(&mut txn, key.as_str(), q); true } Err(e) => { fails.push(json!({"property": "C20", "class": "quote-error", "error": e.to_string()})); false } }
+                    let ts = tref.get_string(&txn);
+                    let cv = |b: Bound<u32>| match b { Bound::Included(x) => Bound::Included(to_doc(&ts, x, bytes)), Bound::Excluded(x) => Bound::Excluded(to_doc(&ts, x, bytes)), Bound::Unbounded => Bound::Unbounded };
+                    match tref.quote(&txn, (cv(start), cv(end))) { Ok(q) => { m.insert(&mut txn, key.as_str(), q); true } Err(e) => { fails.push(json!({"property": "C20", "class": "quote-error", "error": e.to_string()})); false } }
                 }
             };
             if !ok { continue; }
@@ -177,6 +203,7 @@ fn run_case(seed: u64, index: u64, rep: &mut Report, want: &[&str], md: &mut Mod
             quotes.push(q);
             script.push(format!("r{} quote {} of {} range {:?}..{:?}", i, key, root, start, end));
             rep.count("quotes_created");
+            }
         }
         // ---- evaluate every sticky index and every quotation on every replica
         for (ri, rp) in reps.iter().enumerate() {
@@ -191,7 +218,7 @@ fn run_case(seed: u64, index: u64, rep: &mut Report, want: &[&str], md: &mut Mod
                 if let Some(j) = &s.json { match serde_json::from_str::<StickyIndex>(j) { Ok(x) if x == st => {}, _ => fails.push(json!({"property": "C14", "class": "sticky-json-roundtrip", "json": j})) } }
                 if !knows { continue; }
                 rep.add("sticky_resolutions", 1);
-                let want_off = expected_offset(&units, follow_redone(&vs, s.root, s.anchor), s.after);
+                let want_off = expected_offset(&units, follow_redone(&vs, s.root, s.anchor), s.after).map(|o| if s.root == ROOT_TEXT { to_doc(&_t.get_string(&txn), o, bytes) } else { o });
                 let got = st.get_offset(&txn).map(|o| o.index);
                 // (only where the copies are known to be copies: the replica with the undo manager; elsewhere a re-created element is a
                 //  new element and the index stays where the deleted anchor was)
@@ -244,7 +271,12 @@ fn run_case(seed: u64, index: u64, rep: &mut Report, want: &[&str], md: &mut Mod
                             if bounds_known {
                                 let m = md.ask(&format!("LK init {} {} {}", fmt_units(&us), fmt_bound(&q.start), fmt_bound(&q.end)));
                                 rep.add("quotation_registrations_compared_with_model", 1);
-                                if m.strip_prefix("ok ").map(parse_ids) != Some(real_reg.clone()) { rep.disagree(json!({"kind": "units registered when the quotation is made / arrives", "model": m, "impl": fmt_ids(&real_reg), "units": fmt_units(&us), "range": q.range, "replica": ri, "case": {"stream": 114, "index": index, "seed": seed}})); }
+                                let model_reg = m.strip_prefix("ok ").map(parse_ids);
+                                let live_only = |x: &BTreeSet<(u64, u32)>| -> BTreeSet<(u64, u32)> { x.iter().filter(|u| us.iter().any(|y| y.0 == **u && y.1)).cloned().collect() };
+                                if model_reg != Some(real_reg.clone()) && model_reg.as_ref().map(|x| live_only(x)) == Some(live_only(&real_reg)) {
+                                    // the two sets differ on tombstones only: a deleted run inside the range carries the `linked` flag but has no entry in linked_by
+                                    fails.push(json!({"property": "C20", "class": "tombstone-in-a-quoted-range-flagged-but-not-registered", "model": m, "impl": fmt_ids(&real_reg), "units": fmt_units(&us), "range": q.range, "replica": ri}));
+                                } else if model_reg != Some(real_reg.clone()) { rep.disagree(json!({"kind": "units registered when the quotation is made / arrives", "model": m, "impl": fmt_ids(&real_reg), "units": fmt_units(&us), "range": q.range, "replica": ri, "script": script.clone(), "blocks": vs.branches.iter().filter(|b| matches!(&b.id, VParent::Root(n) if n == q.root)).flat_map(|b| b.seq.iter().map(|it| format!("{:x}:{:x}+{}{}{}", it.id.client.get(), it.id.clock, it.len, if it.deleted { "~" } else { "" }, if it.linked { "L" } else { "" }))).collect::<Vec<_>>().join(" "), "case": {"stream": 114, "index": index, "seed": seed}})); }
                             }
                             watch.insert((ri, qi), (f, ids_now, 0, real_reg, us.clone()));
                         }
